@@ -59,7 +59,11 @@ def _check(prop, tier, seed, replay, work, t0):
     cov = {"states": r["distinct"], "transitions": r["generated"], "traces_validated_against_impl": stats["observations"],
            "samples": stats["samples"], "exhaustive": True,
            "explanation": "exhaustive over all strings of length <= %d over the alphabet { } a b (every brace arrangement) at the sites KeyToSlot, "
-                          "cluster.GetSlot, slot filter decision, bisync slot tags; plus %d seeded random byte strings (non-UTF-8, braces sprinkled)" % (maxlen, nrand),
+                          "cluster.GetSlot, slot filter decision, bisync slot tags; plus %d seeded random byte strings (non-UTF-8, braces sprinkled); a seventh of the keys "
+                          "and a sample of the random ones are also replayed as one-key units through the real bidirectional replay (incremental path, snapshot path, "
+                          "snapshot path with hash-tag stripping) into a cluster fake: the slot each unit is bound to (slot tag of its marker key) against "
+                          "HASH_SLOT of the key it writes, and no one-key unit refused" % (maxlen, nrand),
+           "replay_units_observed": stats.get("unit_slots", 0),
            "tlc_cases": stats["tlc_cases"], "random_keys": stats["random"], "slot_tags_checked": stats["tags"],
            "distinct_keys": stats["keys"]}
     vlib.write_evidence(prop, tier, seed, "model_checking", cov,
